@@ -21,9 +21,72 @@ def normalised(sources):
     return {m: ast.unparse(ast.parse(s)) for m, s in sources.items()}
 
 
+def apply_unified_diff(files, diff_text):
+    """Applies a git-style unified diff to {path suffix -> text}; returns {module name -> new text} or None when a hunk does not
+    fit.  Pure text manipulation, nothing is executed."""
+    import re
+
+    out = {}
+    cur, hunks = None, {}
+    for line in diff_text.splitlines():
+        if line.startswith("+++ "):
+            cur = line[4:].strip()
+            cur = cur[2:] if cur.startswith("b/") else cur
+            hunks[cur] = []
+        elif line.startswith("@@") and cur is not None:
+            m = re.match(r"@@ -(\d+)(?:,(\d+))? \+(\d+)(?:,(\d+))? @@", line)
+            hunks[cur].append([int(m.group(1)), []])
+        elif cur is not None and hunks.get(cur) and (line[:1] in (" ", "+", "-") or line == ""):
+            if line.startswith("--- ") or line.startswith("diff "):
+                continue
+            hunks[cur][-1][1].append(line if line else " ")
+    for path, hs in hunks.items():
+        mod = os.path.splitext(os.path.basename(path))[0]
+        if mod not in files:
+            return None
+        lines = files[mod].split("\n")
+        shift = 0
+        for start, body in hs:
+            old = [l[1:] for l in body if l[:1] in (" ", "-")]
+            new = [l[1:] for l in body if l[:1] in (" ", "+")]
+            pos = None
+            for d in range(0, 60):
+                for cand in (start - 1 + shift + d, start - 1 + shift - d):
+                    if 0 <= cand <= len(lines) - len(old) and lines[cand:cand + len(old)] == old:
+                        pos = cand
+                        break
+                if pos is not None:
+                    break
+            if pos is None:
+                return None
+            lines[pos:pos + len(old)] = new
+            shift += len(new) - len(old)
+        out[mod] = "\n".join(lines)
+    return out
+
+
 def apply_variant(norm_sources, v):
     """Returns new sources or None when the locator does not match."""
     out = dict(norm_sources)
+    if v.get("patch"):
+        # a stored, independently verified refactoring as the base: applied to the raw sources, then normalised
+        from .frontend import load_sources
+
+        raw = load_sources()
+        try:
+            with open(os.path.join(os.path.dirname(os.path.dirname(os.path.abspath(__file__))), v["patch"])) as fh:
+                patched = apply_unified_diff(raw, fh.read())
+        except OSError:
+            patched = None
+        if patched is None:
+            return None
+        for m, t in patched.items():
+            try:
+                out[m] = ast.unparse(ast.parse(t))
+            except SyntaxError:
+                return None
+        if not v.get("edits") and not v.get("old"):
+            return out
     edits = v.get("edits") or [{"module": v["module"], "old": v["old"], "new": v["new"], "count": v.get("count", 1)}]
     for e in edits:
         s = out[e["module"]]
